@@ -62,8 +62,10 @@ def constraint_exprs(fm, pid, out):
     exprs = []
     for i, c in enumerate(fm.ctcs):
         try:
+            if c.ast is None or c.ast.root is None:
+                raise ValueError("constraint without an expression tree (root is None)")
             e = build.node_to_expr(c.ast.root)
-        except ValueError as err:
+        except (ValueError, AttributeError) as err:
             out.append((f"{pid}.ctc.malformed-tree", f"constraint #{i}: {err}"))
             exprs.append(None)
             continue
